@@ -41,7 +41,18 @@ impl<'a> P<'a> {
             },
         };
         // canonical check: re-encoding must reproduce the consumed bytes (covers float width, numeric reduction, NaN)
-        if cbor::bytes(&v) != self.b[start..self.i] { return rej("non-canonical encoding") }
+        if cbor::bytes(&v) != self.b[start..self.i] {
+            // finer classes for floats that dCBOR's numeric reduction requires to be integers
+            if let V::F(f) = &v {
+                if f.is_finite() && f.fract() == 0.0 && *f >= -18446744073709551616.0 && *f < 18446744073709551616.0 {
+                    let width = self.b[start] & 0x1f; // 25 = f16, 26 = f32, 27 = f64
+                    let in_i32 = *f >= -2147483648.0 && *f <= 2147483647.0;
+                    let in_i64 = *f >= -9223372036854775808.0 && *f < 9223372036854775808.0;
+                    return rej(match (width, in_i32, in_i64) { (26, false, _) => "integral float not reduced: f32 outside i32 range", (27, _, false) => "integral float not reduced: f64 outside i64 range", _ => "integral float not reduced" });
+                }
+            }
+            return rej("non-canonical encoding")
+        }
         self.depth -= 1;
         Ok(v)
     }
